@@ -321,6 +321,20 @@ func runOracleAccum(c *Ctx, r *RuleRun) {
 				"the maximum version is overwritten instead of accumulated in this loop: the result is the maximum of the last file/entry only, nextTs restarts below stored versions and new commits are shadowed by older ones")
 		}
 		if n == 0 {
+			// a named result that lives in memory (the function defers): the running maximum is a cell whose stores are
+			// all guarded by `new > old`
+			cellMax := false
+			eachInstr(f, func(ins ssa.Instruction) {
+				if ret, ok := ins.(*ssa.Return); ok && len(ret.Results) > 0 && isMaxCell(p, ret.Results[0]) && dependsOnVersion(ret.Results[0]) {
+					cellMax = true
+				}
+			})
+			if cellMax {
+				n++
+				r.Hold(fn, "max accumulator", p.Pos(f.Pos()), "the result cell is only ever raised: every store is guarded by new > old")
+			}
+		}
+		if n == 0 {
 			r.Undecided(fn, "max accumulator", p.Pos(f.Pos()), "no loop-carried maximum on the way to the result")
 		}
 		// every iteration of an outer accumulator loop reaches the inner one (no file is skipped)
@@ -891,12 +905,8 @@ func runCmpOutLevel(c *Ctx, r *RuleRun) {
 				}
 				// list insert: lm.levels[L].PushBack
 				if obj := p.ExtCallee(cl); obj != nil && funcIs(obj, "container/list", "List", "PushBack") {
-					if ld, ok := cl.Call.Args[0].(*ssa.UnOp); ok {
-						if ia, ok := ld.X.(*ssa.IndexAddr); ok {
-							if fv, _ := loadedField(ia.X); fv == levels {
-								got["level list"] = o.nf(ia.Index)
-							}
-						}
+					if idx, ok := levelListIndex(p, cl.Call.Args[0], levels, 0); ok {
+						got["level list"] = o.nf(idx)
 					}
 				}
 			})
@@ -1804,4 +1814,59 @@ func isLoopHeader(b *ssa.BasicBlock) bool {
 		}
 	}
 	return false
+}
+
+// levelListIndex: v is the list of one level - lm.levels[L] loaded directly, or handed out by a helper of the module
+// whose every return is lm.levels[k] for one constant k or for one of its parameters (then L is the caller's argument).
+func levelListIndex(p *Prog, v ssa.Value, levels *types.Var, depth int) (ssa.Value, bool) {
+	switch x := v.(type) {
+	case *ssa.UnOp:
+		if ia, ok := x.X.(*ssa.IndexAddr); ok && x.Op == token.MUL {
+			if fv, _ := loadedField(ia.X); fv == levels {
+				return ia.Index, true
+			}
+		}
+	case *ssa.Call:
+		g := x.Call.StaticCallee()
+		if g == nil || !p.InModule(g) || len(g.Blocks) == 0 || depth > 1 || g.Signature.Results().Len() != 1 {
+			return nil, false
+		}
+		var idx ssa.Value
+		good, n := true, 0
+		eachInstr(g, func(ins ssa.Instruction) {
+			ret, ok := ins.(*ssa.Return)
+			if !ok {
+				return
+			}
+			n++
+			i2, ok := levelListIndex(p, retOperand(ret, 0), levels, depth+1)
+			if !ok {
+				good = false
+				return
+			}
+			if idx == nil {
+				idx = i2
+				return
+			}
+			k1, ok1 := constInt(idx)
+			k2, ok2 := constInt(i2)
+			if !(idx == i2 || (ok1 && ok2 && k1 == k2)) {
+				good = false
+			}
+		})
+		if !good || n == 0 || idx == nil {
+			return nil, false
+		}
+		if _, isConst := idx.(*ssa.Const); isConst {
+			return idx, true
+		}
+		if pr, isParam := unconv(idx).(*ssa.Parameter); isParam {
+			for i, q := range g.Params {
+				if q == pr && i < len(x.Call.Args) {
+					return x.Call.Args[i], true
+				}
+			}
+		}
+	}
+	return nil, false
 }
